@@ -1,4 +1,37 @@
+//! vf-kip: checks of the KIP parser crate `anda_kip` (C15, C16 static half).
+mod c15;
+mod c16;
+mod fixtures;
+mod grammar;
+mod probe;
+mod tok;
+mod walker;
+
+use vf_core::Runner;
+
 fn main() {
-    eprintln!("vf-kip: not built yet");
-    std::process::exit(2);
+    let prop = std::env::args().nth(1).unwrap_or_default();
+    match prop.as_str() {
+        "C15" => {
+            let mut r = Runner::from_env("C15", "exploration");
+            c15::run(&mut r);
+            r.finish();
+        }
+        "C16" => {
+            let mut r = Runner::from_env("C16", "exploration");
+            c16::run(&mut r);
+            r.finish();
+        }
+        // child-process mode of the C15 budget sub-check (see probe.rs)
+        "__probe" => probe::child_main(),
+        // developer aid: print what the parser says about a text
+        "try" => {
+            let text = std::env::args().nth(2).unwrap_or_default();
+            println!("{}", probe::describe(&text));
+        }
+        other => {
+            eprintln!("usage: vf-kip <C15|C16> <quick|thorough|replay FILE> (got {other:?})");
+            std::process::exit(2);
+        }
+    }
 }
